@@ -131,6 +131,69 @@ def own_hostile(rng, tier):
         n, p, _b = c01.BUILD[fmt](rng)
         yield fmt, n + (L if big else MI + 4097), bgs(), p, 'valid+tail'
 
+# ------------------------------------------------------------------ field sweep: EVERY field of every structure the VHDX and VMDK
+# inspectors parse (also the ones the current code ignores), one at a time, over boundary values, on an otherwise valid image
+# followed by a tail of >= 1 MiB, fed as one giant chunk / 1 MiB chunks / small chunks
+BASE_VALUES = [0, 1, 2**16 - 1, 2**16, 2**31, 2**32 - 1]
+def field_values(width, around, rng, tier):
+    """boundary values that fit the field + (value-1, value, value+1) of the other fields of the structure"""
+    rel = sorted({v + d for v in around for d in (-1, 0, 1) if v + d >= 0} - set(BASE_VALUES))
+    wide = [2**32, 2**32 + 1, 2**63, 2**64 - 2, 2**64 - 1] if width == 8 else []
+    vals = BASE_VALUES + wide + (rel if tier != 'quick' else rng.sample(rel, min(2, len(rel))))
+    return [v for v in dict.fromkeys(vals) if v < 256**width]
+
+VHDX_META_OFF, VHDX_ITEM_OFF = 256 * KI, 64 * KI
+VHDX_FIELDS = [   # (name, absolute offset, width)
+    ('rt.checksum', 192 * KI + 4, 4), ('rt.count', 192 * KI + 8, 4), ('rt.reserved', 192 * KI + 12, 4),
+    ('rte.offset', 192 * KI + 32, 8), ('rte.length', 192 * KI + 40, 4), ('rte.required', 192 * KI + 44, 4),
+    ('mt.reserved', VHDX_META_OFF + 8, 2), ('mt.count', VHDX_META_OFF + 10, 2), ('mt.reserved2', VHDX_META_OFF + 12, 4),
+    ('mt.reserved6', VHDX_META_OFF + 28, 4), ('mte.offset', VHDX_META_OFF + 48, 4), ('mte.length', VHDX_META_OFF + 52, 4),
+    ('mte.flags', VHDX_META_OFF + 56, 4), ('mte.reserved', VHDX_META_OFF + 60, 4), ('vds.size', VHDX_META_OFF + VHDX_ITEM_OFF, 8),
+    ('hdr1.seq', 64 * KI + 8, 8), ('hdr1.loglength', 64 * KI + 68, 4)]
+VHDX_AROUND = [VHDX_ITEM_OFF, 8, 32, VHDX_META_OFF, MI, 2047]
+VMDK_DESC_SECTORS = 20
+VMDK_FIELDS = [   # '<4sIIQQQQIQQ' + the rest of the 512-byte SparseExtentHeader
+    ('version', 4, 4), ('flags', 8, 4), ('capacity', 12, 8), ('grainSize', 20, 8), ('descriptorOffset', 28, 8), ('descriptorSize', 36, 8),
+    ('numGTEsPerGT', 44, 4), ('rgdOffset', 48, 8), ('gdOffset', 56, 8), ('overHead', 64, 8), ('uncleanShutdown', 72, 1),
+    ('newlines', 73, 4), ('compressAlgorithm', 77, 2), ('pad', 79, 4)]
+VMDK_AROUND = [1, VMDK_DESC_SECTORS, 2048, 128, 512, 21, 2047]
+
+def field_sweep(rng, tier):
+    """-> (fmt, n, bg, patches, label, chunk-kind index)"""
+    big = tier != 'quick'
+    tail = (2 * MI if big else MI) + 4096 + 7
+    k = rng.randrange(3)
+    # VHDX
+    n = VHDX_META_OFF + VHDX_ITEM_OFF + 8 + tail
+    for name, off, w in VHDX_FIELDS:
+        if not big and name.startswith('hdr1'): continue      # outside every capture region: thorough only
+        for v in field_values(w, VHDX_AROUND, rng, tier):
+            base = vhdx_patches(item_len=8, meta_len=MI) + [P(VHDX_META_OFF + VHDX_ITEM_OFF, struct.pack('<Q', 10 * 2**30))]
+            yield 'vhdx', n, rng.choice(['z', 'f', 'a']), base + [P(off, v.to_bytes(w, 'little'))], 'sweep:vhdx.%s' % name, k
+            k += 1
+    # pairs: the region-table length against the item offset / length (declared sizes that contradict each other)
+    for ml, io, il in [(0, 65536, 8), (65535, 65536, 8), (65536, 65536, 8), (65537, 65536, 2**32 - 1), (1, 1, 2**32 - 1), (8, 65536 + 8, 0),
+                       (2**32 - 1, 2**32 - 1, 2**32 - 1), (0, 0, 0)] + ([(rng.choice(BASE_VALUES), rng.choice([32, 64, 65535, 65536, 65537]),
+                                                                         rng.choice(BASE_VALUES)) for _ in range(20)] if big else []):
+        yield 'vhdx', n, 'z', vhdx_patches(item_off=io, item_len=il, meta_len=ml), 'sweep:vhdx.pair', k
+        k += 1
+    # VMDK (with and without the footer flag)
+    desc = c01.descriptor(rng)
+    n = 512 + VMDK_DESC_SECTORS * 512 + tail
+    for name, off, w in VMDK_FIELDS:
+        for v in field_values(w, VMDK_AROUND, rng, tier):
+            footer = (k % 4 == 0) and name != 'gdOffset'
+            base = [P(0, c01.sparse_header(1, 2048, 1, VMDK_DESC_SECTORS, c01.GD_AT_END if footer else 21)), P(512, desc)]
+            yield 'vmdk', n, rng.choice(['z', 'f', 'a']), base + [P(off, v.to_bytes(w, 'little'))], 'sweep:vmdk.%s' % name, k
+            k += 1
+
+def sweep_chunking(rng, n, kind, tier):
+    kind %= 3 if tier == 'quick' else 4
+    if kind == 0: return [n]
+    if kind == 1: return [MI] * (n // MI)
+    if kind == 2: return [65536] * (n // 65536)
+    return [rng.choice([4096, 100000, 511])] * 40 + [MI]
+
 def big_chunkings(rng, n, tier):
     """few large chunks (the list model is quadratic in the number of chunks per region)"""
     out = [[n]]
@@ -155,8 +218,15 @@ def gen_cases(rng, tier):
     # 1. boundary / hostile family first
     for fmt, n, bg, p, lab in own_hostile(rng, tier):
         ch = big_chunkings(rng, n, tier)
-        if tier == 'quick': ch = [ch[0], rng.choice(ch[1:])]
+        if tier == 'quick': ch = [ch[0], rng.choice(ch[1:])] if lab != 'plain' else [rng.choice(ch)]
         for sizes in ch:
+            cont, fin = modes(rng, len(sizes) + 1)
+            yield {'op': 'mem', 'fmt': fmt, 'n': n, 'bg': bg, 'p': p, 'sizes': sizes, 'cont': cont, 'fin': fin, 'k': lab}
+    # 1b. the field sweep
+    for fmt, n, bg, p, lab, kind in field_sweep(rng, tier):
+        kinds = [kind] if tier == 'quick' else [0, 1, 2 + kind % 2]
+        for kd in kinds:
+            sizes = sweep_chunking(rng, n, kd, tier)
             cont, fin = modes(rng, len(sizes) + 1)
             yield {'op': 'mem', 'fmt': fmt, 'n': n, 'bg': bg, 'p': p, 'sizes': sizes, 'cont': cont, 'fin': fin, 'k': lab}
     # 2. tools/imgbuild.hostile_images: every image to its own inspector (overlays / plain: a random one) and, in the
@@ -250,8 +320,13 @@ def search(rng, budget):
             for sizes in big_chunkings(rng, ln, 'quick')[:2]:
                 n += 1
                 yield {'op': 'mem', 'fmt': fmt, 'n': ln, 'bg': bg, 'p': p, 'sizes': sizes, 'cont': 0, 'fin': len(sizes) + 2, 'k': 'search:' + lab}
+        for fmt, ln, bg, p, lab, kind in field_sweep(rng, 'thorough'):
+            for kd in (0, 1):
+                n += 1
+                sizes = sweep_chunking(rng, ln, kd, 'thorough')
+                yield {'op': 'mem', 'fmt': fmt, 'n': ln, 'bg': bg, 'p': p, 'sizes': sizes, 'cont': 0, 'fin': len(sizes) + 2, 'k': 'search:' + lab}
 
-RULE = ('hostile family first (VMDK descriptor sector counts 2047..2^64-1 with/without footer flag, bad descriptor sector, text-descriptor mode; '
+RULE = ('field sweep: every field of every structure the VHDX and VMDK inspectors parse, ignored ones included (region-table checksum/count/reserved, entry offset/length/required, metadata reserved words/count, item offset/length/flags/reserved, size; every SparseExtentHeader field) one at a time over {0,1,2^16-1,2^16,2^31,2^32-1,2^32,2^63,2^64-1, other fields +-1} + contradictory length pairs, tail >= 1 MiB, as one chunk / 1 MiB chunks / 64 KiB chunks; hostile family ( (VMDK descriptor sector counts 2047..2^64-1 with/without footer flag, bad descriptor sector, text-descriptor mode; '
         'VHDX item lengths up to 2^32-1, table counts 2047/2048/65535/2^32-1, announced metadata length 2^32-1, missing size item, 2047 metadata '
         'entries; every format on 3-6 MiB text/random/zero/0xff/one-line streams and on its valid image + long tail) x (one giant chunk, 64 KiB..2 MiB '
         'chunks, random cuts with empty chunks); tools/imgbuild.hostile_images; the C01 structured generators with fine chunkings; x call protocols '
